@@ -2,8 +2,10 @@
 Decided statically: availability typestate of the graph-route growth loop, censoring (every censored id removed before
 any pruning or building), the complete decision table of the graph-route step function (Appendix B.2), the orientation
 table of the graph-route node builder (arrival sides, flipped pushes, complemented terminal extensions), payload fold in
-lockstep, and the order prune(available) -> build -> finish -> prune(all) -> return."""
-from .. import dt_compress, dt_tables
+lockstep, the order prune(available) -> build -> finish -> prune(all) -> return; and the pruning itself: find_link's table
+(which index, which strand, under which strandedness), get_valid_exts / fix_exts keep an extension exactly when it resolves to
+an available node, sequence_of_path spells merged nodes with a K-1 overlap."""
+from .. import dt_compress, dt_tables, dt_graph
 
 ASSUMPTIONS = ["the input graph is valid (extensions symmetric); rows marked ⊥ are outside that precondition"]
 
@@ -14,3 +16,8 @@ def run(F, rep):
     dt_tables.graph_step_table(F, rep, "C09.2")
     dt_compress.graph_builder_table(F, rep, "C09.3")
     dt_compress.graph_driver_table(F, rep, "C09.5")
+    # "no extension left pointing at a removed or absent node": the pruning the driver relies on, and the link resolution under it
+    dt_graph.find_link_table(F, rep, "C09.6")
+    dt_graph.get_valid_exts_table(F, rep, "C09.6")
+    dt_graph.fix_exts_table(F, rep, "C09.6")
+    dt_graph.sequence_of_path_table(F, rep, "C09.6")
